@@ -137,6 +137,14 @@ def standard_plan(ctx, visitor, depths_quick=(8, 7, 6, 5, 5), depths_thorough=(1
         cfg = dict(N=N, r=2.0, box=boxes[0], holder="fresh")
         tasks += list(tree_tasks(cfg, "A013", depths[N - 1] - 1, visitor, split=2))
         tasks += list(tree_tasks(cfg, "A013", depths[N - 1] - 1, visitor, split=2, batch=3))
+    # an unrelated solver of another dimension constructed before / after the solver under test and iterated between its
+    # first calls; and a budget (itersLimit) far below the number of iterations made through the step-wise API
+    for N in ((1, 2, 3, 4) if th else (1, 2, 3)):
+        d = depths[N - 1] - 1
+        for other in ([N + 1, "after"], [1 if N > 1 else 2, "before"]):
+            tasks += list(tree_tasks(dict(N=N, r=2.0, box=boxes[0], other=other), "A013", d, visitor, split=2))
+        tasks += list(tree_tasks(dict(N=N, r=2.0, box=boxes[0], itersLimit=3), "A013", d + 1, visitor, split=2))
+        tasks += list(tree_tasks(dict(N=N, r=3.5, box=boxes[0], itersLimit=2), "A01", d + 2, visitor, split=2, batch=2))
     if long_runs:
         envs = ("abs13", "const", "lin", "stair")
         for N in ((1, 2, 3) if th else (1, 2)):
@@ -205,7 +213,8 @@ def describe(tasks):
         c = t["cfg"]
         if t["kind"] == "tree":
             key = f"N={c['N']} r={c['r']} box={c.get('box')} V={t['alphabet_name']} depth={t['depth']}" + \
-                  (" holder=fresh" if c.get("holder") else "") + \
+                  (" holder=fresh" if c.get("holder") else "") + (f" other={c['other']}" if c.get("other") else "") + \
+                  (f" itersLimit={c['itersLimit']}" if c.get("itersLimit") else "") + \
                   (f" batch={t['batch']}" if t.get("batch", 1) != 1 else "")
             trees[key] = trees.get(key, 0) + len(t["alphabet"]) ** (t["depth"] - len(t["prefix"]))
         else:
